@@ -160,18 +160,25 @@ def draw_selection(rng, m, elem):
     if kind.startswith("isel"):
         el = kind.split("_")[1]
         n_el = len(elem[el][0])
-        form = ["list", "array", "scalar", "single", "all", "reversed"][int(rng.integers(0, 6))]
+        form = ["list", "array", "scalar", "single", "all", "reversed", "bool_mask", "negstep_slice"][int(rng.integers(0, 8))]
         if form == "scalar":
             idx = int(rng.integers(0, n_el))
         elif form == "single":
             idx = [int(rng.integers(0, n_el))]
         elif form == "all":
             idx = list(range(n_el))
+        elif form == "negstep_slice":
+            step = -int(rng.integers(1, 4))
+            idx = list(range(n_el))[::step]
+            return {"kind": kind, "element": el, "form": form, "idx": idx, "slice": [None, None, step]}
         else:
             k = int(rng.integers(1, max(2, n_el // 2 + 1)))
             idx = [int(i) for i in rng.choice(n_el, size=k, replace=False)]
             if form == "reversed":
                 idx = sorted(idx, reverse=True)
+            if form == "bool_mask":
+                idx = sorted(idx)
+                return {"kind": kind, "element": el, "form": form, "idx": idx, "mask_len": n_el}
         return {"kind": kind, "element": el, "form": form, "idx": idx}
     P, LL = elem[el]
     if kind in ("box", "box_am"):
@@ -265,7 +272,15 @@ def apply_selection(obj, sel, is_data=False):
     """obj: Grid or UxDataArray."""
     k = sel["kind"]
     if k.startswith("isel"):
-        return obj.isel(**{"n_" + sel["element"]: sel["idx"]})
+        ind = sel["idx"]
+        if sel.get("form") == "bool_mask":
+            ind = np.zeros(sel["mask_len"], dtype=bool)
+            ind[sel["idx"]] = True
+        elif sel.get("form") == "negstep_slice" and is_data:
+            ind = slice(*sel["slice"])  # (Grid.isel takes index lists; the data array takes slices too)
+        elif sel.get("form") == "array":
+            ind = np.asarray(ind)
+        return obj.isel(**{"n_" + sel["element"]: ind})
     if k in ("box", "box_am"):
         return obj.subset.bounding_box(sel["lon_bounds"], sel["lat_bounds"], element=ELEMENT_ARG[sel["element"]])
     if k == "circle":
